@@ -231,9 +231,10 @@ const (
 	TYield
 	TTimerOp
 	TNow
+	TCond
 )
 
-var tkindNames = [...]string{"send", "send-closed!", "recv", "recv-closed", "rendezvous", "default", "close", "cancel", "fire", "quiesce", "yield", "timer-op", "now"}
+var tkindNames = [...]string{"send", "send-closed!", "recv", "recv-closed", "rendezvous", "default", "close", "cancel", "fire", "quiesce", "yield", "timer-op", "now", "cond"}
 
 type Trans struct {
 	kind  TKind
@@ -329,6 +330,11 @@ func (in *Interp) enabled() []Trans {
 			continue
 		case PNow:
 			ts = append(ts, Trans{kind: TNow, g: g, ci: -1})
+			continue
+		case PCond:
+			if g.pend.cond() {
+				ts = append(ts, Trans{kind: TCond, g: g, ci: -1})
+			}
 			continue
 		case PQuiesce:
 			quiescers = append(quiescers, g)
@@ -477,7 +483,7 @@ func (in *Interp) fire(t Trans) {
 		in.cancelCtx(p.ctx, in.canceledErr())
 		in.tick(t.g)
 		in.complete(t.g, -1, nil, false, false)
-	case TYield, TTimerOp, TNow:
+	case TYield, TTimerOp, TNow, TCond:
 		in.cur = t.g
 		in.complete(t.g, -1, nil, false, false)
 	case TQuiesce:
@@ -859,11 +865,16 @@ func transChans(t Trans) []*Chan {
 // detects (vector clocks) and reports instead of assuming their absence.
 func indep(a, b Trans) bool {
 	for _, k := range []TKind{a.kind, b.kind} {
-		if k == TQuiesce || k == TSendClosed {
+		if k == TQuiesce || k == TSendClosed || k == TCond {
 			return false
 		}
 	}
 	// the logical clock and timer state: fires conflict with timer operations and clock reads
+	for _, t := range []Trans{a, b} {
+		if t.kind == TFire && t.timer != nil && t.timer.Fn != nil && t.timer.Fn.Intrinsic == "ctx.deadline" {
+			return false
+		}
+	}
 	isFire := func(t Trans) bool { return t.kind == TFire }
 	clk := func(t Trans) bool { return t.kind == TTimerOp || t.kind == TNow }
 	if (isFire(a) && clk(b)) || (isFire(b) && clk(a)) {
